@@ -1,5 +1,6 @@
 import Hl7.Lemmas.Split
 import Hl7.Lemmas.Slots
+import Hl7.Model.Cascade
 /-!
 # C02 — Every defined position is encoded at, and parsed from, its own index
 
@@ -92,6 +93,153 @@ theorem C02_slot_only_there (sep : Char) (i k : Nat) (v : Str) (hk : i < k) :
 theorem C02_open_ended (sep : Char) (N : Nat) (v : Str) :
     join sep (render (dropTrailing (slots [(N, v)] 0 (N + 1)))) = List.replicate N sep ++ v :=
   C02_slot_only_there sep N (N + 1) v (by omega)
+
+/-! ### every depth at once: a value at the path `(i, r, j, k)` of the cascade -/
+
+open Hl7.Py (splitOn)
+open Hl7.Casc
+
+def sepOf : Lvl → Char
+  | .pos c _ => c
+  | .rep c => c
+
+/-- the tree holding one leaf `v` at the positional path `p` (one repetition at repetition levels) -/
+def single : List Lvl → List Nat → Str → T
+  | [], _, v => .leaf v
+  | .pos _ _ :: ls, i :: p, v => .pos [(i, single ls p v)]
+  | .pos _ _ :: ls, [], v => .pos [(0, single ls [] v)]
+  | .rep _ :: ls, _ :: p, v => .reps [single ls p v]
+  | .rep _ :: ls, [], v => .reps [single ls [] v]
+
+/-- the text that has `v` at path `p` and nothing else: at each positional level exactly `i` separators before it -/
+def posText : List Lvl → List Nat → Str → Str
+  | [], _, v => v
+  | .pos c _ :: ls, i :: p, v => List.replicate i c ++ posText ls p v
+  | .pos _ _ :: ls, [], v => posText ls [] v
+  | .rep _ :: ls, _ :: p, v => posText ls p v
+  | .rep _ :: ls, [], v => posText ls [] v
+
+/-- every positional index of the path is inside its level's table -/
+def PathOk : List Lvl → List Nat → Prop
+  | [], _ => True
+  | .pos _ w :: ls, i :: p => i < w ∧ PathOk ls p
+  | .pos _ w :: ls, [] => 0 < w ∧ PathOk ls []
+  | .rep _ :: ls, _ :: p => PathOk ls p
+  | .rep _ :: ls, [] => PathOk ls []
+
+/-- **C02 (encoded at its own index, every depth).** A value alone at the path `p` of the cascade is encoded as exactly `pᵢ`
+    separators of each positional level in front of it, and nothing else — for every level list, every path inside the tables. -/
+theorem C02_cascade_enc : ∀ (ls : List Lvl) (p : List Nat) (v : Str), PathOk ls p → enc ls (single ls p v) = posText ls p v
+  | [], _, _, _ => rfl
+  | .pos c w :: ls, i :: p, v, h => by
+    simp only [single, enc, List.map_cons, List.map_nil, posText]
+    rw [C02_slot_only_there c i w _ h.1, C02_cascade_enc ls p v h.2]
+  | .pos c w :: ls, [], v, h => by
+    simp only [single, enc, List.map_cons, List.map_nil, posText]
+    rw [C02_slot_only_there c 0 w _ h.1, C02_cascade_enc ls [] v h.2]
+    simp
+  | .rep c :: ls, _ :: p, v, h => by
+    simp only [single, enc, List.map_cons, List.map_nil, posText, Hl7.Py.join]
+    exact C02_cascade_enc ls p v h
+  | .rep c :: ls, [], v, h => by
+    simp only [single, enc, List.map_cons, List.map_nil, posText, Hl7.Py.join]
+    exact C02_cascade_enc ls [] v h
+
+theorem splitOn_clean (c : Char) (t : Str) (h : c ∉ t) : splitOn c t = [t] := by
+  induction t with
+  | nil => simp [splitOn]
+  | cons x xs ih =>
+    have hx : x ≠ c := fun e => h (e ▸ List.mem_cons_self)
+    have hxs : c ∉ xs := fun hm => h (List.mem_cons_of_mem _ hm)
+    unfold splitOn
+    simp [hx, ih hxs]
+
+theorem splitOn_replicate (c : Char) (i : Nat) (t : Str) (h : c ∉ t) :
+    splitOn c (List.replicate i c ++ t) = List.replicate i [] ++ [t] := by
+  induction i with
+  | zero => simpa using splitOn_clean c t h
+  | succ i ih => simp [List.replicate_succ, splitOn, ih]
+
+theorem pieces_single (i j : Nat) (t : Str) (ht : t ≠ []) :
+    pieces j (List.replicate i ([] : Str) ++ [t]) = [(j + i, t)] := by
+  induction i generalizing j with
+  | zero => simp [pieces, ht]
+  | succ i ih =>
+    simp only [List.replicate_succ, List.cons_append, pieces, if_true]
+    rw [ih (j + 1)]
+    congr 2; omega
+
+/-- the value contains none of the separators, which are pairwise distinct -/
+def Clean (ls : List Lvl) (v : Str) : Prop := (∀ l ∈ ls, sepOf l ∉ v) ∧ (ls.map sepOf).Nodup
+
+theorem posText_free (c : Char) : ∀ (ls : List Lvl) (p : List Nat) (v : Str), c ∉ v → c ∉ ls.map sepOf → c ∉ posText ls p v
+  | [], _, v, hv, _ => hv
+  | .pos d w :: ls, i :: p, v, hv, hs => by
+    simp only [posText, List.mem_append, List.mem_replicate, not_or]
+    simp only [List.map_cons, sepOf, List.mem_cons, not_or] at hs
+    exact ⟨fun h => hs.1 h.2, posText_free c ls p v hv hs.2⟩
+  | .pos d w :: ls, [], v, hv, hs => by
+    simp only [posText]
+    simp only [List.map_cons, List.mem_cons, not_or] at hs
+    exact posText_free c ls [] v hv hs.2
+  | .rep d :: ls, _ :: p, v, hv, hs => by
+    simp only [posText]
+    simp only [List.map_cons, List.mem_cons, not_or] at hs
+    exact posText_free c ls p v hv hs.2
+  | .rep d :: ls, [], v, hv, hs => by
+    simp only [posText]
+    simp only [List.map_cons, List.mem_cons, not_or] at hs
+    exact posText_free c ls [] v hv hs.2
+
+theorem posText_ne_nil : ∀ (ls : List Lvl) (p : List Nat) (v : Str), v ≠ [] → posText ls p v ≠ []
+  | [], _, v, hv => hv
+  | .pos d w :: ls, i :: p, v, hv => by
+    simp only [posText]
+    intro h
+    exact posText_ne_nil ls p v hv (List.append_eq_nil_iff.mp h).2
+  | .pos d w :: ls, [], v, hv => by simp only [posText]; exact posText_ne_nil ls [] v hv
+  | .rep d :: ls, _ :: p, v, hv => by simp only [posText]; exact posText_ne_nil ls p v hv
+  | .rep d :: ls, [], v, hv => by simp only [posText]; exact posText_ne_nil ls [] v hv
+
+/-- **C02 (parsed from its own index, every depth).** Parsing the text that has a (non-empty, separator-free) value after exactly
+    `pᵢ` separators at each positional level yields the tree with that value at path `p` and nothing else. -/
+theorem C02_cascade_parse : ∀ (ls : List Lvl) (p : List Nat) (v : Str), v ≠ [] → Clean ls v →
+    parse ls (posText ls p v) = single ls p v
+  | [], _, _, _, _ => rfl
+  | .pos c w :: ls, i :: p, v, hv, hc => by
+    have hcl : Clean ls v := ⟨fun l hl => hc.1 l (List.mem_cons_of_mem _ hl), (List.nodup_cons.mp hc.2).2⟩
+    have hfree : c ∉ posText ls p v :=
+      posText_free c ls p v (hc.1 (.pos c w) List.mem_cons_self) (List.nodup_cons.mp hc.2).1
+    simp only [posText, parse, single]
+    rw [splitOn_replicate c i _ hfree, pieces_single i 0 _ (posText_ne_nil ls p v hv)]
+    simp [C02_cascade_parse ls p v hv hcl]
+  | .pos c w :: ls, [], v, hv, hc => by
+    have hcl : Clean ls v := ⟨fun l hl => hc.1 l (List.mem_cons_of_mem _ hl), (List.nodup_cons.mp hc.2).2⟩
+    have hfree : c ∉ posText ls [] v :=
+      posText_free c ls [] v (hc.1 (.pos c w) List.mem_cons_self) (List.nodup_cons.mp hc.2).1
+    simp only [posText, parse, single]
+    rw [splitOn_clean c _ hfree]
+    have := pieces_single 0 0 _ (posText_ne_nil ls [] v hv)
+    simp only [List.replicate_zero, List.nil_append, Nat.add_zero] at this
+    rw [this]
+    simp [C02_cascade_parse ls [] v hv hcl]
+  | .rep c :: ls, _ :: p, v, hv, hc => by
+    have hcl : Clean ls v := ⟨fun l hl => hc.1 l (List.mem_cons_of_mem _ hl), (List.nodup_cons.mp hc.2).2⟩
+    have hfree : c ∉ posText ls p v :=
+      posText_free c ls p v (hc.1 (.rep c) List.mem_cons_self) (List.nodup_cons.mp hc.2).1
+    simp only [posText, parse, single]
+    rw [splitOn_clean c _ hfree]
+    simp [C02_cascade_parse ls p v hv hcl]
+  | .rep c :: ls, [], v, hv, hc => by
+    have hcl : Clean ls v := ⟨fun l hl => hc.1 l (List.mem_cons_of_mem _ hl), (List.nodup_cons.mp hc.2).2⟩
+    have hfree : c ∉ posText ls [] v :=
+      posText_free c ls [] v (hc.1 (.rep c) List.mem_cons_self) (List.nodup_cons.mp hc.2).1
+    simp only [posText, parse, single]
+    rw [splitOn_clean c _ hfree]
+    simp [C02_cascade_parse ls [] v hv hcl]
+
+/-- non-vacuity: field 5, component 2, subcomponent 3 of a segment body -/
+example : posText [.pos '|' 30, .rep '~', .pos '^' 12, .pos '&' 6] [4, 0, 1, 2] "X".toList = "||||^&&X".toList := by decide
 
 /-- non-vacuity -/
 example : join '|' (render (dropTrailing (slots [(2, "X".toList)] 0 30))) = "||X".toList := by
